@@ -146,6 +146,12 @@ pub mod verif_cache {
 #[cfg(redb_verif)]
 mod verif_c01;
 
+/// Verification hook for C13 (`Database::verif_observer`), only present under `--cfg redb_verif`
+#[cfg(redb_verif)]
+mod verif_c13;
+#[cfg(redb_verif)]
+pub use verif_c13::{VObserver, VTreePaths};
+
 /// Verification hook for C08/C20 (I/O latch call log), only present under `--cfg redb_verif`
 #[cfg(all(redb_verif, not(redb_no_std)))]
 pub mod verif_c08;
